@@ -78,7 +78,7 @@ func genFallibleMotif(r *rng) *ccase {
 		// (a) annotated fallible injector on a per-invocation input
 		in := ts[0]
 		if r.chance(1, 2) {
-			in = tcOf([]int{pSlice, pMap, pOpaque, pOpaque}[r.intn(4)]) // not usable as a map key
+			in = tcOf([]int{pSlice, pMap, pOpaque, pOpaque, pArr2, pArr2}[r.intn(6)]) // not usable as a map key - or an array of structs, which is
 		}
 		if r.chance(1, 3) {
 			// the input is static: a literal listed first
